@@ -138,7 +138,7 @@ def generate(rng, tier):
     if rng.random() < 0.12:
         # a model with many arguments of which only a few are swept: 9-13 parameters, most single values, 2-4 collections at
         # random positions (the order of the product is the declaration order whatever the positions are)
-        wide = [f"q{i}" for i in range(rng.randint(9, 13))]
+        wide = [f"q{i}" for i in range(rng.choice([rng.randint(9, 13), rng.randint(9, 13), rng.randint(9, 13), rng.randint(64, 70)]))]
         multi = set(rng.sample(range(len(wide)), rng.randint(2, 4)))
         init = []
         for i, nm in enumerate(wide):
